@@ -916,6 +916,22 @@ example : let s := run St.init [.start, .write [.other 1, .accept], .read 1]
 -- the stale reader callback: a read between two prompts leaves the pipe alone
 example : (run St.init [.write [.other 1], .read 5]).pipe = [.other 1] := by decide
 
+/-! why the `is_done` gate matters: a `process_keys` that keeps popping the queue after the result
+    is set applies the keys typed after Enter to the accepted line (and loses them for the next
+    prompt) — the theorems above fail for it -/
+def iterNoGate : Nat → KP → KP
+  | 0, p => p
+  | n + 1, p =>
+    match p.queue with
+    | [] => p
+    | k :: q => iterNoGate n (handle { p with queue := q } k)
+
+theorem no_gate_misapplies_typeahead :
+    (iterNoGate 5 ⟨[.other 97, .accept, .other 98], none, [], 0⟩).applied = [.other 97, .other 98] ∧
+    (iterNoGate 5 ⟨[.other 97, .accept, .other 98], none, [], 0⟩).queue = [] ∧
+    (processKeys ⟨[.other 97, .accept, .other 98], none, [], 0⟩).applied = [.other 97] ∧
+    (processKeys ⟨[.other 97, .accept, .other 98], none, [], 0⟩).queue = [.other 98] := by decide
+
 end examples
 
 end Ptk.C17
